@@ -22,9 +22,9 @@ ASSUMPTIONS = [
     "the expected bytes come from the directive model in this file (two's complement at the directive's width, high byte first)",
     "an FCC string cannot contain its own delimiter; the delimiter is the first non-blank character of the operand",
 ]
-HEALTH = {"dir:FCB": 0.04, "dir:FDB": 0.04, "dir:FCC": 0.06, "dir:RMB": 200, "has_symbol": 0.02, "must_reject": 0.008}
+HEALTH = {"dir:FCB": 0.04, "dir:FDB": 0.04, "dir:FCC": 0.06, "dir:RMB": 200, "has_symbol": 0.02, "must_reject": 0.008, "lower_case_hex": 100}
 EXHAUSTIVE = {"quick": ["FCC: 94 delimiters x 14 catalogue strings", "FCB/FDB single value: boundary grid x every spelling",
-                        "RMB: boundary grid"], "thorough": ["as quick"]}
+                        "RMB: boundary grid", "hex literals with a-f digits in lower / mixed case: FCB, FDB (alone, in a list, through an EQU), RMB"], "thorough": ["as quick"]}
 
 PRINTABLE = "".join(chr(c) for c in range(0x20, 0x7F))
 DELIMS = [c for c in PRINTABLE if c != " "]
@@ -123,7 +123,31 @@ NOBYTE = [
 _nobyte_case = st.sampled_from(NOBYTE)
 
 
+def _spell(v, tag):
+    """A.spell plus hex digits in lower / mixed case ($ff, $bEeF): the tool reads hex literals in either case"""
+    if tag == "hexlc":
+        return "$" + ("%X" % v).lower()
+    if tag == "hexmc":
+        h = "%04X" % v
+        return "$" + "".join(c.lower() if i % 2 else c for i, c in enumerate(h))
+    return A.spell(v, tag)
+
+
+LOWER_HEX = [0x0A, 0x0F, 0xA0, 0xAB, 0xFE, 0xFF, 0x1C, 0xD3]
+LOWER_HEX16 = [0xBEEF, 0x0ABC, 0xFFFF, 0xA000, 0x00FA, 0x1E2D, 0xC0DE]
+
+
 def enumerated(tier, seed):
+    # hex literals with a-f digits in lower or mixed case, alone, in lists, through an EQU, and as an RMB count
+    for tag in ("hexlc", "hexmc"):
+        for directive, vals in (("FCB", LOWER_HEX), ("FDB", LOWER_HEX + LOWER_HEX16)):
+            for v in vals:
+                for kind in ("lit", "equ_before", "equ_after"):
+                    yield dict(dir=directive, elems=[dict(kind=kind, v=v, sp=tag)], comment=None, lower_hex=True)
+                yield dict(dir=directive, elems=[dict(kind="lit", v=1, sp="dec"), dict(kind="lit", v=v, sp=tag), dict(kind="lit", v=2, sp="hex2")],
+                           comment=None, lower_hex=True)
+        for nn in LOWER_HEX + [0x1AB, 0xA00]:
+            yield dict(dir="RMB", n=nn, sp=tag, lower_hex=True)
     for d in DELIMS:
         for t in CATALOGUE:
             if d not in t:
@@ -259,11 +283,11 @@ def build(case):
             if e["kind"] == "expr":
                 parts.append(e["text"])
             elif e["kind"] == "lit":
-                parts.append(A.spell(v, e["sp"]))
+                parts.append(_spell(v, e["sp"]))
             else:
                 name = "ZQ%d" % n_equ
                 n_equ += 1
-                (pre if e["kind"] == "equ_before" else post).append(A.line(name, "EQU", A.spell(v, e["sp"])))
+                (pre if e["kind"] == "equ_before" else post).append(A.line(name, "EQU", _spell(v, e["sp"])))
                 parts.append(name)
             if not lo <= v <= hi:
                 must_reject = True
@@ -285,7 +309,7 @@ def build(case):
         operand = case["delim"] + case["text"] + case["delim"]
         expected = case["text"].encode("latin-1")
     elif d == "RMB":
-        operand = A.spell(case["n"], case["sp"])
+        operand = _spell(case["n"], case["sp"])
         expected = bytes(case["n"])
     else:
         operand = case["operand"]
@@ -317,8 +341,8 @@ def execute(case):
     if d == "PAIR":
         return execute_pair(case)
     lines, expected, row = build(case)
-    labels = ["dir:" + d]
-    nontrivial = False
+    labels = ["dir:" + d] + (["lower_case_hex"] if case.get("lower_hex") else [])
+    nontrivial = bool(case.get("lower_hex"))
     if d in ("FCB", "FDB"):
         kinds = set(e["kind"] for e in case["elems"])
         if kinds - {"lit"}:
